@@ -15,7 +15,15 @@ class Obj(object):
     def describe(self): return self.n
 
 
-OBJS = [Obj(1), Obj(2)]
+class Bag(object):
+    """an attribute bag backed by a mapping: asking it for an attribute it does not have raises KeyError (not AttributeError)"""
+    def __init__(self, **kw): self.__dict__['_d'] = dict(kw)
+    def __getattr__(self, name):
+        if name.startswith('__'): raise AttributeError(name)        # (special-method probes of pickle / copy are answered the usual way)
+        return self.__dict__.get('_d', {})[name]
+
+
+OBJS = [Obj(1), Obj(2), Bag(n=3)]
 # the generated functions are all called `target`: an argument may well have an attribute of that name which is no method of its
 # own (plain data; a method borrowed from another object) - it is then NOT an instance the function is bound to
 OBJS[0].target = 2.5
@@ -72,6 +80,9 @@ def gen_program(r, idx):
         kind = ['method', 'callable', 'partial_method', 'partial_callable'][(idx // 40) % 4]
     defaults = [r.choice(POOL) for _ in range(ndef)]
     kwdefaults = [r.choice(POOL) for _ in range(nkw)]
+    # stratum: a default VALUE that can neither be copied nor pickled (a stream, a lock, a module) - binding does not look at values
+    if idx % 15 == 4 and ndef: defaults[0] = ['<<STDERR>>', '<<LOCK>>', '<<MODULE>>'][(idx // 15) % 3]
+    if idx % 15 == 9 and nkw and kwdef[0]: kwdefaults[0] = ['<<LOCK>>', '<<STDERR>>'][(idx // 15) % 2]
     return dict(noself=noself, npos=npos, ndef=ndef, varargs=varargs, nkw=nkw, kwdef=kwdef, varkw=varkw, kind=kind,
                 defaults=defaults, kwdefaults=kwdefaults,
                 nposonly=r.choice([0, 0, 0, 0, 1, 2]),     # leading positional-only parameters (`def f(x, y, /, z)`), capped at npos
@@ -85,6 +96,17 @@ def gen_program(r, idx):
                 p_vals=[r.choice(POOL) for _ in range(3)])
 
 
+_SPECIAL = {}
+def special(v):
+    """program descriptions are plain data; the uncopyable default values are materialised here (one object each per process)"""
+    if isinstance(v, str) and v.startswith('<<') and v.endswith('>>'):
+        if v not in _SPECIAL:
+            import threading
+            _SPECIAL[v] = {'<<STDERR>>': sys.stderr, '<<LOCK>>': threading.Lock(), '<<MODULE>>': os}[v]
+        return _SPECIAL[v]
+    return v
+
+
 def build_callable(prog):
     """exec the program; returns (callable handed to klepto, Func description built from inspect, self object or None)"""
     params = []
@@ -93,7 +115,7 @@ def build_callable(prog):
     ns = {}
     for i, n in enumerate(pos):
         if i >= nreq:
-            ns['_d%d' % i] = prog['defaults'][i - nreq]
+            ns['_d%d' % i] = special(prog['defaults'][i - nreq])
             params.append('%s=_d%d' % (n, i))
         else:
             params.append(n)
@@ -104,7 +126,7 @@ def build_callable(prog):
     for i in range(prog['nkw']):
         n = KWONLY[i]
         if prog['kwdef'][i]:
-            ns['_k%d' % i] = prog['kwdefaults'][i]
+            ns['_k%d' % i] = special(prog['kwdefaults'][i])
             params.append('%s=_k%d' % (n, i))
         else:
             params.append(n)
@@ -261,6 +283,12 @@ def respell(r, f, args, kw, inst_first):
         if p.kind in (p.POSITIONAL_OR_KEYWORD, p.KEYWORD_ONLY) and p.default is not p.empty and p.name not in ba.arguments:
             if r.random() < 0.6: k3[p.name] = p.default
     out.append((list(args), k3))        # (when positionals spill into *args only keyword-only defaults are left to spell)
+    # ... and positionally: while the next open positional parameter has a default (the only way to spell a positional-only default)
+    a4 = list(args)
+    byname = {p.name: p for p in params}
+    while len(a4) < len(pos_names) and byname[pos_names[len(a4)]].default is not inspect.Parameter.empty and pos_names[len(a4)] not in kw:
+        a4.append(byname[pos_names[len(a4)]].default)
+        out.append((list(a4), dict(kw)))
     # permute keyword order
     items = list(kw.items())
     if len(items) > 1:
